@@ -10,10 +10,11 @@
 // repeated attack question, victim questions now and after virtual time
 // advances) and the sink's packet log. See DESIGN.md §4 C07.
 //
-// Unchanged tree: FINDINGS.md #1/#2 (out-of-zone answer-section records are
-// relayed on the cache-miss reply; foreign DNAMEs are also cached) — five narrow
-// `known` signatures evil-in-answer/answer-*/attack-reply and
-// evil-in-answer/answer-foreign-dname/later-reply; every other signature fails.
+// Unchanged tree: FINDINGS.md #1/#2 (out-of-zone answer-section records relayed /
+// foreign DNAMEs cached) were repaired by /repo c9d5181. FINDINGS.md #3 (glue
+// bailiwick too wide after a jump to a cached delegation >= 2 labels deep) is
+// present: three narrow `known` signatures …/deep-cached-jump/sibling-b[-new];
+// every other signature fails.
 // Mutants: /verif/mutants/C07/README.md. Debugging: C07_DEBUG=1|2, C07_CASE=<i>,
 // C07_BATCH=lo:hi:step, C07_ROUNDS, C07_WORKERS.
 package main
@@ -655,7 +656,8 @@ const rule = "distinct_nontrivial = distinct (attack kind, variant, DNSSEC mode,
 
 func main() {
 	r := vlib.Start("C07", "exploration")
-	r.Assume("authority map: root/test./victim.test. servers are honest and never scripted; only the server(s) of evil.test. misbehave; every record they emit for a name outside evil.test. and every wrong-id/wrong-question datagram carries an evil marker")
+	r.Assume("authority map: root/test./victim.test. (deep worlds: also corp.test./partner.test.) servers are honest and never tampered with; only the server(s) of evil.test. (deep worlds: also of a.b.corp.test., delegated to them by corp.test.) misbehave; every record they emit for a name outside their zones and every wrong-id/wrong-question datagram carries an evil marker")
+	r.Assume("gates only delay a reply at a server's socket (the attacker's own NS-address answer; in deep-cached-jump the honest corp.test. server's honest referral) until the harness has run a second client query; no verdict depends on how long that takes")
 	r.Assume("virtual time = RStack.Advance (cache entries + delegation cache shifted together at a quiescent point); the resolver's glue address caches are not aged")
 	r.Assume("loopback:53 and local-interface addresses are remapped to the sink by the harness dial hook so that contacting them is observable")
 
